@@ -10,6 +10,12 @@ CHECKS = {
   text="Every operation history of length <=6 (quick) / <=7 (thorough) over a 5-key universe with a 3-way full-hash collision is enumerated exhaustively through the Go API and built-in methods, and hundreds of random histories of up to 10^4 operations over adversarial hash distributions (all-equal, equal low bits, few chains, colliding ints, short/long strings; up to 40000 live keys) are run; after every step length, lookups, iteration order and the hashtable's structural invariants are compared with an ordered association list. Exploration, not proof: absence of violations is shown only for the generated histories.",
   design_ref="DESIGN.md section 4, C12",
   note="Trusts the reference model (ordered association list, ~100 lines) and the build-tagged read-only hook starlark/verif_hooks.go; keys beyond the listed hash distributions are not explored."),
+ "C01": dict(
+  technique="differential property testing: grammar-generated programs run through the production pipeline and through an independent tree-walking reference interpreter; effect traces, globals and failure positions compared",
+  category="exploration",
+  text="Thousands (quick) to hundreds of thousands (thorough) of scope-aware generated programs per run, over the core language and the four dialect options, are executed both by ExecFileOptions and by a reference interpreter written from the spec (own scoping, closures as environment frames, own argument binder, no bytecode); the host-visible effect sequence with argument reprs, the final globals including aliasing, success/failure and the full Starlark call stack with positions must agree. Exploration: agreement is shown for the generated programs only.",
+  design_ref="DESIGN.md section 4, C01; section 3.1-3.2",
+  note="Trusts the reference interpreter (harness/ref, ~900 lines) and the generator; the value layer (operators, built-ins) is shared with the implementation on purpose. Error texts are not compared."),
 }
 
 PENDING_REASON = "check not built yet in this session (work in progress; DESIGN.md section 4 describes the planned generated-input check)"
